@@ -65,6 +65,9 @@ structure FloatOps where
   eq64 : BitVec 64 → BitVec 64 → Bool
   lt64 : BitVec 64 → BitVec 64 → Bool
   le64 : BitVec 64 → BitVec 64 → Bool
+  /-- float32 -> float64 (exact) and float64 -> float32 (rounding) conversions -/
+  widen : BitVec 32 → BitVec 64
+  narrow : BitVec 64 → BitVec 32
   /-- complex multiplication / division (Go: four products, resp. `runtime.complex128div`) -/
   cmul64 : BitVec 32 × BitVec 32 → BitVec 32 × BitVec 32 → BitVec 32 × BitVec 32
   cdiv64 : BitVec 32 × BitVec 32 → BitVec 32 × BitVec 32 → BitVec 32 × BitVec 32
